@@ -155,33 +155,33 @@ func (c *Ctx) LoadRepo() (*symgo.Program, error) {
 
 // Harness names one entry function and its parameters.
 type Harness struct {
-	Name     string         // e.g. "rang3.Flatten[k=2]"
-	Pkg      string         // import path (relative to the repo module when it starts with "internal/")
-	Func     string
-	Params   map[string]int
-	Reach    []string // ids that must be reached on some feasible path
-	MaxSteps int64
-	MaxPaths int
-	PanicOK  bool
-	Bounds   string // human description of the bounds
-	Item     string // corpus item (generated programs)
-	TimeoutMs int
-	MapOrder bool
-	UnwindCex bool
-	Workers   int
-	Quiet     bool
-	NoModel   map[string]bool
-	Race      bool // native replay under go test -race
+	Name       string // e.g. "rang3.Flatten[k=2]"
+	Pkg        string // import path (relative to the repo module when it starts with "internal/")
+	Func       string
+	Params     map[string]int
+	Reach      []string // ids that must be reached on some feasible path
+	MaxSteps   int64
+	MaxPaths   int
+	PanicOK    bool
+	Bounds     string // human description of the bounds
+	Item       string // corpus item (generated programs)
+	TimeoutMs  int
+	MapOrder   bool
+	UnwindCex  bool
+	Workers    int
+	Quiet      bool
+	NoModel    map[string]bool
+	Race       bool // native replay under go test -race
 	CollectAll bool
 }
 
 // Result of one harness.
 type Result struct {
-	H        Harness
-	Rep      *symgo.Report
-	Missing  []string // reach ids never hit
-	BudgetCut string  // non-empty: not (completely) run because the time budget was used up
-	Replays  []ReplayResult
+	H         Harness
+	Rep       *symgo.Report
+	Missing   []string // reach ids never hit
+	BudgetCut string   // non-empty: not (completely) run because the time budget was used up
+	Replays   []ReplayResult
 }
 
 type ReplayResult struct {
@@ -564,7 +564,7 @@ type Evidence struct {
 // Outcome accumulates what a check did.
 type Outcome struct {
 	Results      []*Result
-	validated    int // results already offered to ValidateSamples
+	validated    int      // results already offered to ValidateSamples
 	Violations   []string // VIOLATION lines
 	Known        []string // KNOWN-FINDING lines
 	Inconclusive []string
